@@ -449,45 +449,89 @@ def StepOK (P C : TId) (K : Nat) (s : State (proto K)) (a : Act (proto K))
   ∀ s', exec s a = some s' → ∃ hA' tA' q', Inv P C K s' hA' tA' q' ∧
     q ++ pushed (evl s a) = popped (evl s a) ++ q' ∧ ∀ v ∈ popped (evl s a), 0 ≤ v
 
+/-- ghost increments of one action: a store to `head` releases the slots the storing thread took,
+a store to `tail` publishes the slots it wrote (used by the happens-before proofs of C10, which need
+the ghost state after the action explicitly) -/
+def dH (K : Nat) (s : State (proto K)) : Act (proto K) → Nat
+  | .step t => match op K (s.loc t) with
+    | some (.store 0 _) => cTk (s.loc t)
+    | _ => 0
+  | _ => 0
+
+def dT (K : Nat) (s : State (proto K)) : Act (proto K) → Nat
+  | .step t => match op K (s.loc t) with
+    | some (.store 1 _) => pW (s.loc t)
+    | _ => 0
+  | _ => 0
+
+/-- `StepOK` with the ghost state after the action made explicit -/
+def StepOKG (P C : TId) (K : Nat) (s : State (proto K)) (a : Act (proto K))
+    (hA tA : Nat) (q : List Int) : Prop :=
+  ∀ s', exec s a = some s' → ∃ q', Inv P C K s' (hA + dH K s a) (tA + dT K s a) q' ∧
+    q ++ pushed (evl s a) = popped (evl s a) ++ q' ∧ ∀ v ∈ popped (evl s a), 0 ≤ v
+
+theorem StepOKG.toStepOK {a : Act (proto K)} (h : StepOKG P C K s a hA tA q) : StepOK P C K s a q := by
+  intro s' he
+  obtain ⟨q', h1, h2, h3⟩ := h s' he
+  exact ⟨_, _, q', h1, h2, h3⟩
+
 theorem stepOK_load (inv : Inv P C K s hA tA q) (t : TId) (f : Fld)
     (ho : op K (s.loc t) = some (.load f))
     (H : Inv P C K (setLoc s t (cont K (s.loc t) (s.mem f))) hA tA q) :
-    StepOK P C K s (.step t) q := by
+    StepOKG P C K s (.step t) hA tA q := by
   intro s' he
   obtain ⟨e1, e2⟩ := exec_step_load s t f (inv.park t) ho
   rw [e1] at he; cases he
-  exact ⟨hA, tA, q, H, by simp [e2, pushed, popped], by simp [e2, popped]⟩
+  have g1 : dH K s (.step t) = 0 := by simp [dH, ho]
+  have g2 : dT K s (.step t) = 0 := by simp [dT, ho]
+  rw [g1, g2]
+  exact ⟨q, H, by simp [e2, pushed, popped], by simp [e2, popped]⟩
 
 theorem stepOK_storeIdx (inv : Inv P C K s hA tA q) (t : TId) (f : Nat) (v : Int) (hf : f < 2)
     (ho : op K (s.loc t) = some (.store f v))
-    (H : ∃ hA' tA', Inv P C K (setLoc (setMem s f v) t (cont K (s.loc t) 0)) hA' tA' q) :
-    StepOK P C K s (.step t) q := by
+    (H : Inv P C K (setLoc (setMem s f v) t (cont K (s.loc t) 0))
+      (hA + if f = 0 then cTk (s.loc t) else 0) (tA + if f = 1 then pW (s.loc t) else 0) q) :
+    StepOKG P C K s (.step t) hA tA q := by
   intro s' he
   obtain ⟨e1, e2⟩ := exec_step_store s t f v (inv.park t) ho
   rw [e1] at he; cases he
-  obtain ⟨hA', tA', H⟩ := H
   have hf' : ¬ 2 ≤ f := by omega
-  exact ⟨hA', tA', q, H, by simp [e2, pushed, popped, hf'], by simp [e2, popped]⟩
+  have g1 : dH K s (.step t) = if f = 0 then cTk (s.loc t) else 0 := by
+    simp only [dH, ho]
+    rcases (by omega : f = 0 ∨ f = 1) with h | h <;> subst h <;> simp
+  have g2 : dT K s (.step t) = if f = 1 then pW (s.loc t) else 0 := by
+    simp only [dT, ho]
+    rcases (by omega : f = 0 ∨ f = 1) with h | h <;> subst h <;> simp
+  rw [g1, g2]
+  exact ⟨q, H, by simp [e2, pushed, popped, hf'], by simp [e2, popped]⟩
 
 theorem stepOK_storeSlot (inv : Inv P C K s hA tA q) (t : TId) (f : Nat) (v : Int) (hf : 2 ≤ f)
     (ho : op K (s.loc t) = some (.store f v))
     (H : Inv P C K (setLoc (setMem s f v) t (cont K (s.loc t) 0)) hA tA (q ++ [v])) :
-    StepOK P C K s (.step t) q := by
+    StepOKG P C K s (.step t) hA tA q := by
   intro s' he
   obtain ⟨e1, e2⟩ := exec_step_store s t f v (inv.park t) ho
   rw [e1] at he; cases he
-  exact ⟨hA, tA, q ++ [v], H, by simp [e2, pushed, popped, hf], by simp [e2, popped]⟩
+  have g1 : dH K s (.step t) = 0 := by
+    simp only [dH, ho]; split <;> first | rfl | (rename_i h; cases h; omega)
+  have g2 : dT K s (.step t) = 0 := by
+    simp only [dT, ho]; split <;> first | rfl | (rename_i h; cases h; omega)
+  rw [g1, g2]
+  exact ⟨q ++ [v], H, by simp [e2, pushed, popped, hf], by simp [e2, popped]⟩
 
 theorem stepOK_xchgSlot (inv : Inv P C K s hA tA q) (t : TId) (f : Nat) (v : Int) (hf : 2 ≤ f)
     (ho : op K (s.loc t) = some (.xchg f v))
     (H : ∃ q', q = s.mem f :: q' ∧ 0 ≤ s.mem f ∧
       Inv P C K (setLoc (setMem s f v) t (cont K (s.loc t) (s.mem f))) hA tA q') :
-    StepOK P C K s (.step t) q := by
+    StepOKG P C K s (.step t) hA tA q := by
   intro s' he
   obtain ⟨e1, e2⟩ := exec_step_xchg s t f v (inv.park t) ho
   rw [e1] at he; cases he
   obtain ⟨q', hq, hr, H⟩ := H
-  exact ⟨hA, tA, q', H, by simp [e2, pushed, popped, hf, hq], by simp [e2, popped, hf, hr]⟩
+  have g1 : dH K s (.step t) = 0 := by simp [dH, ho]
+  have g2 : dT K s (.step t) = 0 := by simp [dT, ho]
+  rw [g1, g2]
+  exact ⟨q', H, by simp [e2, pushed, popped, hf, hq], by simp [e2, popped, hf, hr]⟩
 
 /-- local states outside push and pop calls -/
 def neutral (l : L) : Bool := !isPushLoc l && !isPopLoc l
@@ -523,7 +567,7 @@ theorem headD_nonneg {vs : List Int} (h : ∀ v ∈ vs, 0 ≤ v) : 0 ≤ vs.head
   | cons a as => simpa using h a (by simp)
 
 theorem step_pLoadT (hPC : P ≠ C) (inv : Inv P C K s hA tA q) {v : Int}
-    (hl : s.loc P = L.pLoadT v) : StepOK P C K s (.step P) q := by
+    (hl : s.loc P = L.pLoadT v) : StepOKG P C K s (.step P) hA tA q := by
   have pg := inv.pg; have pres := inv.pres
   rw [hl] at pg pres; simp only [PGood, pRes] at pg pres
   apply stepOK_load inv P 1 (by rw [hl]; rfl)
@@ -532,7 +576,7 @@ theorem step_pLoadT (hPC : P ≠ C) (inv : Inv P C K s hA tA q) {v : Int}
     (Nat.le_refl _) rfl
 
 theorem step_pLoadH (hPC : P ≠ C) (inv : Inv P C K s hA tA q) {v t0 : Int}
-    (hl : s.loc P = L.pLoadH v t0) : StepOK P C K s (.step P) q := by
+    (hl : s.loc P = L.pLoadH v t0) : StepOKG P C K s (.step P) hA tA q := by
   have pg := inv.pg; have pres := inv.pres
   rw [hl] at pg pres; simp only [PGood, pRes] at pg pres
   apply stepOK_load inv P 0 (by rw [hl]; rfl)
@@ -550,7 +594,7 @@ theorem step_pLoadH (hPC : P ≠ C) (inv : Inv P C K s hA tA q) {v t0 : Int}
     omega
 
 theorem step_pWrite (hPC : P ≠ C) (inv : Inv P C K s hA tA q) {v t0 : Int}
-    (hl : s.loc P = L.pWrite v t0) : StepOK P C K s (.step P) q := by
+    (hl : s.loc P = L.pWrite v t0) : StepOKG P C K s (.step P) hA tA q := by
   have pg := inv.pg
   rw [hl] at pg; simp only [PGood] at pg
   have e : slot t0 = 2 + (tA + pW (s.loc P)) % K := by rw [hl, pg.2, slot_cast]; rfl
@@ -561,16 +605,18 @@ theorem step_pWrite (hPC : P ≠ C) (inv : Inv P C K s hA tA q) {v t0 : Int}
     (by rw [hl]; rfl) (by rw [hl]; exact Nat.le_refl _) (Nat.le_refl _) rfl
 
 theorem step_pPub (hPC : P ≠ C) (inv : Inv P C K s hA tA q) {t0 : Int}
-    (hl : s.loc P = L.pPub t0) : StepOK P C K s (.step P) q := by
+    (hl : s.loc P = L.pPub t0) : StepOKG P C K s (.step P) hA tA q := by
   have pg := inv.pg
   rw [hl] at pg; simp only [PGood] at pg
   apply stepOK_storeIdx inv P 1 (inc K t0) (by omega) (by rw [hl]; rfl)
   rw [hl]
-  exact ⟨hA, tA + pW (s.loc P), inv.pubTail hPC (L.done [1]) (inc K t0)
-    (by rw [hl, pg, inc_cast]; rfl) trivial rfl rfl rfl⟩
+  have H := inv.pubTail hPC (L.done [1]) (inc K t0)
+    (by rw [hl, pg, inc_cast]; rfl) trivial rfl rfl rfl
+  rw [hl] at H
+  exact H
 
 theorem step_bLoadT (hPC : P ≠ C) (inv : Inv P C K s hA tA q) {vs : List Int}
-    (hl : s.loc P = L.bLoadT vs) : StepOK P C K s (.step P) q := by
+    (hl : s.loc P = L.bLoadT vs) : StepOKG P C K s (.step P) hA tA q := by
   have pg := inv.pg; have pres := inv.pres
   rw [hl] at pg pres; simp only [PGood, pRes] at pg pres
   apply stepOK_load inv P 1 (by rw [hl]; rfl)
@@ -579,7 +625,7 @@ theorem step_bLoadT (hPC : P ≠ C) (inv : Inv P C K s hA tA q) {vs : List Int}
     (Nat.le_refl _) rfl
 
 theorem step_bLoadH (hPC : P ≠ C) (inv : Inv P C K s hA tA q) {vs : List Int} {t0 : Int}
-    (hl : s.loc P = L.bLoadH vs t0) : StepOK P C K s (.step P) q := by
+    (hl : s.loc P = L.bLoadH vs t0) : StepOKG P C K s (.step P) hA tA q := by
   have pg := inv.pg; have pres := inv.pres; have cres := inv.cres
   rw [hl] at pg pres; simp only [PGood, pRes] at pg pres
   apply stepOK_load inv P 0 (by rw [hl]; rfl)
@@ -600,7 +646,7 @@ theorem step_bLoadH (hPC : P ≠ C) (inv : Inv P C K s hA tA q) {vs : List Int} 
     omega
 
 theorem step_bWrite (hPC : P ≠ C) (inv : Inv P C K s hA tA q) {vs : List Int} {pos : Int}
-    {c a : Nat} (hl : s.loc P = L.bWrite vs pos c a) : StepOK P C K s (.step P) q := by
+    {c a : Nat} (hl : s.loc P = L.bWrite vs pos c a) : StepOKG P C K s (.step P) hA tA q := by
   have pg := inv.pg
   rw [hl] at pg; simp only [PGood] at pg
   obtain ⟨pg1, pg2, pg3, pg4⟩ := pg
@@ -624,18 +670,20 @@ theorem step_bWrite (hPC : P ≠ C) (inv : Inv P C K s hA tA q) {vs : List Int} 
       (by rw [hl]; rfl) (by rw [hl]; exact pg4) (Nat.le_refl _) rfl
 
 theorem step_bPub (hPC : P ≠ C) (inv : Inv P C K s hA tA q) {pos : Int} {c : Nat}
-    (hl : s.loc P = L.bPub pos c) : StepOK P C K s (.step P) q := by
+    (hl : s.loc P = L.bPub pos c) : StepOKG P C K s (.step P) hA tA q := by
   have pg := inv.pg
   rw [hl] at pg; simp only [PGood] at pg
   apply stepOK_storeIdx inv P 1 pos (by omega) (by rw [hl]; rfl)
   rw [hl]
-  exact ⟨hA, tA + pW (s.loc P), inv.pubTail hPC (L.done [(c : Int)]) pos
-    (by rw [hl, pg]; rfl) trivial rfl rfl rfl⟩
+  have H := inv.pubTail hPC (L.done [(c : Int)]) pos
+    (by rw [hl, pg]; rfl) trivial rfl rfl rfl
+  rw [hl] at H
+  exact H
 
 /-! #### consumer steps -/
 
 theorem step_cLoadH (hPC : P ≠ C) (inv : Inv P C K s hA tA q)
-    (hl : s.loc C = L.cLoadH) : StepOK P C K s (.step C) q := by
+    (hl : s.loc C = L.cLoadH) : StepOKG P C K s (.step C) hA tA q := by
   have cres := inv.cres
   rw [hl] at cres; simp only [cRes] at cres
   apply stepOK_load inv C 0 (by rw [hl]; rfl)
@@ -643,7 +691,7 @@ theorem step_cLoadH (hPC : P ≠ C) (inv : Inv P C K s hA tA q)
   exact inv.locC hPC (L.cLoadT (s.mem 0)) inv.hH (by rw [hl]; rfl) cres (Nat.le_refl _) rfl
 
 theorem step_cLoadT (hPC : P ≠ C) (inv : Inv P C K s hA tA q) {h : Int}
-    (hl : s.loc C = L.cLoadT h) : StepOK P C K s (.step C) q := by
+    (hl : s.loc C = L.cLoadT h) : StepOKG P C K s (.step C) hA tA q := by
   have cg := inv.cg; have cres := inv.cres
   rw [hl] at cg cres; simp only [CGood, cRes] at cg cres
   apply stepOK_load inv C 1 (by rw [hl]; rfl)
@@ -661,7 +709,7 @@ theorem step_cLoadT (hPC : P ≠ C) (inv : Inv P C K s hA tA q) {h : Int}
     omega
 
 theorem step_cTake (hPC : P ≠ C) (inv : Inv P C K s hA tA q) {h : Int}
-    (hl : s.loc C = L.cTake h) : StepOK P C K s (.step C) q := by
+    (hl : s.loc C = L.cTake h) : StepOKG P C K s (.step C) hA tA q := by
   have cg := inv.cg
   rw [hl] at cg; simp only [CGood] at cg
   have e : slot h = 2 + (hA + cTk (s.loc C)) % K := by rw [hl, cg, slot_cast]; rfl
@@ -672,16 +720,18 @@ theorem step_cTake (hPC : P ≠ C) (inv : Inv P C K s hA tA q) {h : Int}
     (by rw [hl]; rfl) (by rw [hl]; exact Nat.le_refl _) (Nat.le_refl _) rfl
 
 theorem step_cPub (hPC : P ≠ C) (inv : Inv P C K s hA tA q) {h v : Int}
-    (hl : s.loc C = L.cPub h v) : StepOK P C K s (.step C) q := by
+    (hl : s.loc C = L.cPub h v) : StepOKG P C K s (.step C) hA tA q := by
   have cg := inv.cg
   rw [hl] at cg; simp only [CGood] at cg
   apply stepOK_storeIdx inv C 0 (inc K h) (by omega) (by rw [hl]; rfl)
   rw [hl]
-  exact ⟨hA + cTk (s.loc C), tA, inv.pubHead hPC (L.done [1, v]) (inc K h)
-    (by rw [hl, cg, inc_cast]; rfl) trivial rfl rfl rfl⟩
+  have H := inv.pubHead hPC (L.done [1, v]) (inc K h)
+    (by rw [hl, cg, inc_cast]; rfl) trivial rfl rfl rfl
+  rw [hl] at H
+  exact H
 
 theorem step_qLoadH (hPC : P ≠ C) (inv : Inv P C K s hA tA q) {m : Nat}
-    (hl : s.loc C = L.qLoadH m) : StepOK P C K s (.step C) q := by
+    (hl : s.loc C = L.qLoadH m) : StepOKG P C K s (.step C) hA tA q := by
   have cres := inv.cres
   rw [hl] at cres; simp only [cRes] at cres
   apply stepOK_load inv C 0 (by rw [hl]; rfl)
@@ -689,7 +739,7 @@ theorem step_qLoadH (hPC : P ≠ C) (inv : Inv P C K s hA tA q) {m : Nat}
   exact inv.locC hPC (L.qLoadT m (s.mem 0)) inv.hH (by rw [hl]; rfl) cres (Nat.le_refl _) rfl
 
 theorem step_qLoadT (hPC : P ≠ C) (inv : Inv P C K s hA tA q) {m : Nat} {h : Int}
-    (hl : s.loc C = L.qLoadT m h) : StepOK P C K s (.step C) q := by
+    (hl : s.loc C = L.qLoadT m h) : StepOKG P C K s (.step C) hA tA q := by
   have cg := inv.cg; have cres := inv.cres; have pres := inv.pres
   rw [hl] at cg cres; simp only [CGood, cRes] at cg cres
   apply stepOK_load inv C 1 (by rw [hl]; rfl)
@@ -710,7 +760,7 @@ theorem step_qLoadT (hPC : P ≠ C) (inv : Inv P C K s hA tA q) {m : Nat} {h : I
       omega
 
 theorem step_qTake (hPC : P ≠ C) (inv : Inv P C K s hA tA q) {pos : Int} {left : Nat}
-    {acc : List Int} (hl : s.loc C = L.qTake pos left acc) : StepOK P C K s (.step C) q := by
+    {acc : List Int} (hl : s.loc C = L.qTake pos left acc) : StepOKG P C K s (.step C) hA tA q := by
   have cg := inv.cg
   rw [hl] at cg; simp only [CGood] at cg
   obtain ⟨cg1, cg2⟩ := cg
@@ -740,13 +790,15 @@ theorem step_qTake (hPC : P ≠ C) (inv : Inv P C K s hA tA q) {pos : Int} {left
       (by show (acc ++ [_]).length ≤ (acc ++ [_]).length + (left - 1); omega) rfl
 
 theorem step_qPub (hPC : P ≠ C) (inv : Inv P C K s hA tA q) {pos : Int} {acc : List Int}
-    (hl : s.loc C = L.qPub pos acc) : StepOK P C K s (.step C) q := by
+    (hl : s.loc C = L.qPub pos acc) : StepOKG P C K s (.step C) hA tA q := by
   have cg := inv.cg
   rw [hl] at cg; simp only [CGood] at cg
   apply stepOK_storeIdx inv C 0 pos (by omega) (by rw [hl]; rfl)
   rw [hl]
-  exact ⟨hA + cTk (s.loc C), tA, inv.pubHead hPC (L.done ((acc.length : Int) :: acc)) pos
-    (by rw [hl, cg]; rfl) trivial rfl rfl rfl⟩
+  have H := inv.pubHead hPC (L.done ((acc.length : Int) :: acc)) pos
+    (by rw [hl, cg]; rfl) trivial rfl rfl rfl
+  rw [hl] at H
+  exact H
 
 /-! #### the other actions, and the dispatcher -/
 
@@ -770,14 +822,15 @@ theorem Inv.threads (inv : Inv P C K s hA tA q) (ts : List TId) :
 
 theorem step_call (hPC : P ≠ C) (inv : Inv P C K s hA tA q) (t : TId) (l : (proto K).L)
     (hrole : (isPushCall l = true → t = P) ∧ (isPopCall l = true → t = C)) :
-    StepOK P C K s (.call t l) q := by
+    StepOKG P C K s (.call t l) hA tA q := by
   intro s' he
   simp only [exec] at he
   split at he
   · rename_i hc
     obtain ⟨-, hop, hent⟩ := hc
     cases he
-    refine ⟨hA, tA, q, ?_, by simp [evl, evOf, pushed, popped], by simp [evl, evOf, popped]⟩
+    refine ⟨q, ?_, by simp [evl, evOf, pushed, popped], by simp [evl, evOf, popped]⟩
+    show Inv P C K _ hA tA q
     apply Inv.threads
     have hn : neutral (s.loc t) = true := op_none hop
     have hent' : isEntry l = true := by
@@ -815,7 +868,7 @@ theorem step_call (hPC : P ≠ C) (inv : Inv P C K s hA tA q) (t : TId) (l : (pr
   · cases he
 
 theorem step_step (hPC : P ≠ C) (inv : Inv P C K s hA tA q) (t : TId) :
-    StepOK P C K s (.step t) q := by
+    StepOKG P C K s (.step t) hA tA q := by
   have hpush : isPushLoc (s.loc t) = true → t = P := by
     intro h; apply Classical.byContradiction; intro hne
     have := inv.roleP t hne; rw [h] at this; cases this
@@ -867,8 +920,8 @@ theorem step_step (hPC : P ≠ C) (inv : Inv P C K s hA tA q) (t : TId) :
       (inv.locNeutral hPC t _ (by rw [hl]; rfl) (by rw [hl]; rfl))
 
 /-- every enabled action that respects the roles preserves the invariant -/
-theorem step_inv (hPC : P ≠ C) (inv : Inv P C K s hA tA q) (a : Act (proto K))
-    (hrole : RoleAct P C a) : StepOK P C K s a q := by
+theorem step_invG (hPC : P ≠ C) (inv : Inv P C K s hA tA q) (a : Act (proto K))
+    (hrole : RoleAct P C a) : StepOKG P C K s a hA tA q := by
   cases a with
   | step t => exact step_step hPC inv t
   | call t l => exact step_call hPC inv t l (hrole t l rfl)
@@ -887,6 +940,10 @@ theorem step_inv (hPC : P ≠ C) (inv : Inv P C K s hA tA q) (a : Act (proto K))
   | spurious t =>
     intro s' he
     simp [exec, inv.park t] at he
+
+theorem step_inv (hPC : P ≠ C) (inv : Inv P C K s hA tA q) (a : Act (proto K))
+    (hrole : RoleAct P C a) : StepOK P C K s a q :=
+  (step_invG hPC inv a hrole).toStepOK
 
 /-! ### histories along a run -/
 
